@@ -13,7 +13,7 @@ nibp  particle nibble layer.  Stream = one header + a block of particle records 
 nibh  header nibble layer.  Stream = (header, probe particle) pairs in which one 3-byte group of the HEADER runs
       through all its patterns (group 0: 2^16 with first byte 0xFF; groups 1, 2: 2^24): every cells-per-dimension
       1..4047, every velocity scale -48..4047, every cell index -48..4047 in every dimension.
-sm    header state machine, explicit state: alphabet {a = header h1, b = header h2, x = particle p1, y = particle p2},
+sm    header state machine, explicit state: alphabet {a = header h1, b = header h2, c = header h3 (cpd of h1, other velocity scale), x = particle p1, y = particle p2},
       ALL sequences up to depth 5 (quick) / 7 (thorough) including the empty stream and particle-before-header.
       A state is a history (node of the history tree); its abstraction (last header, particles written) is what the
       implementation may remember.  Every history is executed from scratch in every output configuration and compared
@@ -41,7 +41,7 @@ RULE = ('nibp: header + every one of the 2^24 bit patterns of each 3-byte group 
         'nibh: every pattern of each 3-byte group of a header record (2^16 + 2 x 2^24) each followed by a probe particle '
         '(quick 1 background f32, thorough 4 backgrounds f32+f64), cells-per-dimension <= 0 excluded; '
         'sm: all sequences over {h1,h2,p1,p2} to depth 5 (quick) / 7 (thorough) incl. empty and particle-before-header, each run '
-        'from scratch in 15 output configurations + its parent history; states = histories, transitions = tree edges, '
+        'from scratch in 16 output configurations + its parent history; states = histories, transitions = tree edges, '
         'traces = histories whose full decode equals the sequential reference; '
         'rt: cpd {1,5,1875}(+{2,4047}) x corner cells x 7^3 offsets x 5^3 velocities x boxsize x velz x float type; '
         'non-trivial = distinct (layer, group, background, block, dtype) blocks with all field values distinct / '
@@ -63,6 +63,8 @@ NIB_HDR = dict(cpd=5, vs=1234, cell=(1, 4, 2))
 BLOCKS = 32                      # a 2^24 sweep is cut into 32 blocks of 2^19 patterns
 PROBE = [1000, -1000, 7, 2047, -2048, 1]
 SM = dict(a=dict(cpd=5, vs=1200, cell=(0, 4, 2), junk=0), b=dict(cpd=1875, vs=37, cell=(1874, 0, 937), junk=15),
+          c=dict(cpd=5, vs=311, cell=(3, 1, 0), junk=3),      # same cells-per-dimension as a, another velocity scale and cell
+
           x=[-1000, 1000, 0, 2047, -2048, 1], y=[999, -1, 123, -777, 0, 2000])
 SENT = -7.25
 GUARD = 2
@@ -92,12 +94,13 @@ def rt_grid(tier):
 def cases(tier, seed):
     q = tier == 'quick'
     yield dict(layer='sm', seqs=[''])
+    yield dict(layer='conc')      # two decodes at the same time must not share any module-level state
     # state machine first (simplest first): histories grouped by (length, first symbols) so a task is >= 50 ms
     D = depth(tier)
     for L in range(1, D + 1):
         grp = max(0, L - 3)     # 64 histories per case
-        for pre in itertools.product('abxy', repeat=grp):
-            yield dict(layer='sm', seqs=[''.join(pre) + ''.join(t) for t in itertools.product('abxy', repeat=L - grp)])
+        for pre in itertools.product('abcxy', repeat=grp):
+            yield dict(layer='sm', seqs=[''.join(pre) + ''.join(t) for t in itertools.product('abcxy', repeat=L - grp)])
     cpds, boxes, velzs = rt_grid(tier)
     for cpd in cpds:
         for box in boxes:
@@ -118,7 +121,7 @@ def cases(tier, seed):
 
 def BOUNDS(tier):
     q = tier == 'quick'
-    return dict(sm_depth=depth(tier), sm_alphabet=4, nibp_backgrounds=1 if q else 4, nibh_backgrounds=1 if q else 4,
+    return dict(sm_depth=depth(tier), sm_alphabet=5, nibp_backgrounds=1 if q else 4, nibh_backgrounds=1 if q else 4,
                 nibble_float_types=1 if q else 2, rt_grid=rt_grid(tier))
 
 
@@ -162,6 +165,9 @@ def call(data, box, velz, dt, pmode='ret', vmode='ret'):
             args[name] = False
         elif mode == 'pre':
             bufs[name] = np.full((N + GUARD, 3), SENT, dtype=dtype)
+            args[name] = bufs[name]
+        elif mode == 'preo':      # preallocated in the OTHER float type than float_dtype: the caller's array must still be filled
+            bufs[name] = np.full((N + GUARD, 3), SENT, dtype=(np.float64 if dtype is np.float32 else np.float32))
             args[name] = bufs[name]
         elif mode == 'half':      # non C-contiguous caller memory: one half of a shared (N, 6) phase-space buffer
             if 'shared' not in bufs:
@@ -209,7 +215,7 @@ def call(data, box, velz, dt, pmode='ret', vmode='ret'):
             else:
                 b = np.asarray(bufs[name])
                 ns.append(int(val))
-                out[name] = np.ascontiguousarray(b[:val])
+                out[name] = np.ascontiguousarray(b[:val]).astype(dtype)
                 rest = b[val:]
                 if not (rest == SENT).all():
                     bad = np.nonzero((rest != SENT).any(axis=1))[0] + int(val)
@@ -342,14 +348,14 @@ CONFIGS = [('both', 'f4', 'ret', 'ret', False), ('both', 'f8', 'ret', 'ret', Fal
            ('prealloc-pos', 'f4', 'pre', 'ret', False), ('prealloc-vel-only', 'f8', 'off', 'pre', False),
            ('column', 'f4', 'col', 'col', False), ('strided', 'f4', 'ret', 'ret', True),
            ('prealloc-halves', 'f4', 'half', 'half', False), ('prealloc-fortran', 'f8', 'fort', 'fort', False),
-           ('prealloc-everyother', 'f4', 'skip', 'skip', False)]
+           ('prealloc-everyother', 'f4', 'skip', 'skip', False), ('prealloc-f8-array-for-f4', 'f4', 'preo', 'preo', False)]
 RT_CONFIGS = 3
 
 
 def sm_stream(seq):
     recs = []
     for ch in seq:
-        recs.append(ref.header_record(**SM[ch]) if ch in 'ab' else ref.particle_records(SM[ch]))
+        recs.append(ref.header_record(**SM[ch]) if ch in 'abc' else ref.particle_records(SM[ch]))
     return np.stack(recs) if recs else np.zeros((0, 9), dtype=np.uint8)
 
 
@@ -404,7 +410,7 @@ def nan_rows(seq):
     """particles before the first header"""
     n = 0
     for ch in seq:
-        if ch in 'ab':
+        if ch in 'abc':
             break
         n += 1
     return n
@@ -446,7 +452,7 @@ def run_sm(c):
             trans += 1
         probs += p
         evals += e
-        hdr = next((ch for ch in reversed(seq) if ch in 'ab'), '-')
+        hdr = next((ch for ch in reversed(seq) if ch in 'abc'), '-')
         assert (st is None) == (hdr == '-') and (st is None or st[0] == SM[hdr]['cpd'])
         absstates.add(f'{hdr}:{n}')
         if not p:
@@ -519,8 +525,30 @@ def run_rt(c):
                 if (cpd == 5 and dt == 'f4' and box == 2000.0 and not probs) else None)
 
 
+def run_conc(c):
+    """E-POR over two concurrent calls of the interpreted twin of unpack_pack9 (separate inputs and outputs): the calls must be
+    independent, i.e. touch no common module-level array (a scratch buffer hoisted to module scope would be one)"""
+    from vf import twin
+    from abacusnbody.data import pack9
+    rt = twin.Runtime()
+    tw = twin.Twins(rt)
+    f = tw.twin(pack9.unpack_pack9)
+    probs = []
+    n = 0
+    for seqs in (('axy', 'byx'), ('axayb', 'bx'), ('x', 'ay')):
+        streams = [sm_stream(q) for q in seqs]
+        for kw in (dict(), dict(float_dtype=np.float64), dict(velout=False)):
+            res, conf = twin.concurrent_calls(rt, [(lambda d=d: f(d, BOX, VELZ, **kw)) for d in streams])
+            n += 1
+            for cf in conf[:1]:
+                probs.append(dict(sig='conc:shared-module-state', msg=f'two concurrent unpack_pack9 calls ({seqs}, {kw}) both access {cf[0]} element {cf[2]} ({cf[1]})'))
+    seen = set()
+    probs = [p for p in probs if not (p['sig'] in seen or seen.add(p['sig']))]
+    return dict(problems=probs, evals=n, nt=['conc'], states=0, transitions=0, traces=0, extra=dict(concurrent_call_pairs=n))
+
+
 def run(case):
-    return dict(sm=run_sm, rt=run_rt, nibp=run_nibp, nibh=run_nibh)[case['layer']](case)
+    return dict(conc=run_conc, sm=run_sm, rt=run_rt, nibp=run_nibp, nibh=run_nibh)[case['layer']](case)
 
 
 def finalize(agg, tier):
@@ -528,7 +556,7 @@ def finalize(agg, tier):
     q = tier == 'quick'
     D = depth(tier)
     nd = 1 if q else 2
-    want = dict(sm_histories=(4 ** (D + 1) - 1) // 3,
+    want = dict(sm_histories=(5 ** (D + 1) - 1) // 4,
                 nibp_records=nd * (1 if q else 4) * (3 * (1 << 24) - (1 << 16)),
                 nibh_headers=nd * (1 if q else 4) * (2 * (1 << 24) + (1 << 16) - 49 * 16 - 2 * 0))
     out = []
@@ -543,6 +571,6 @@ def finalize(agg, tier):
         out.append(dict(sig='harness:space-size:graph', msg=f'states {agg.states} transitions {agg.transitions}'))
     nabs = len(agg.sets.get('sm_abstract_states', ()))
     # abstract states (last header, written): '-' with n = 0..D, a/b with n = 0..D-1
-    if nabs != (D + 1) + 2 * D:
-        out.append(dict(sig='harness:space-size:abstract', msg=f'{nabs} abstract states reached, expected {(D + 1) + 2 * D}'))
+    if nabs != (D + 1) + 3 * D:
+        out.append(dict(sig='harness:space-size:abstract', msg=f'{nabs} abstract states reached, expected {(D + 1) + 3 * D}'))
     return out
